@@ -14,6 +14,11 @@ func (te *tableEngine) tableGameOpen() error {
 	te.lock.Lock()
 	defer te.lock.Unlock()
 
+	// the table was closed or released while the open-game trigger was pending: no more hands
+	if te.isReleased || te.table.State.Status == TableStateStatus_TableClosed {
+		return nil
+	}
+
 	if te.table.State.GameState != nil {
 		fmt.Printf("[DEBUG#tableGameOpen] Table (%s) game (%s) with game count (%d) is already opened.\n", te.table.ID, te.table.State.GameState.GameID, te.table.State.GameCount)
 		return nil
